@@ -639,7 +639,9 @@ func c05DropOnlyUnverified(c *Ctx, rule string) {
 				bad = append(bad, p.Pos(r.Pos()))
 			}
 		}
-		has := len(callsIn(ort, false, func(cc *ssa.CallCommon) bool { return calleeIs(cc, advRoot) })) >= 2
+		// (the advance on the timeout's own sync info and the advance on the certificate built from the quorum; the
+		// second may sit in a private helper that collects the timeout)
+		has := len(deepSites(fr, func(cc *ssa.CallCommon) bool { return calleeIs(cc, advRoot) }, 0)) >= 2
 		c.Check(len(bad) == 0 && has, rule, "OnRemoteTimeout: only unverifiable timeouts are dropped before their sync info is used", p.FuncPos(ort),
 			itoa(n)+" early return(s), each on a failed signature / signer check; every other path calls advanceView(timeout.SyncInfo)",
 			"a verified timeout can be dropped at "+join(bad)+" before advanceView(timeout.SyncInfo): a lagging replica never learns the quorum's high QC")
